@@ -20,6 +20,7 @@
 #include <tulz/threading/Thread.h>
 
 #include <atomic>
+#include <system_error>
 #include <sched.h>
 #include <sys/syscall.h>
 #include <unistd.h>
@@ -31,7 +32,7 @@ namespace {
 constexpr uint64_t kLive = 0x11ce5ca11ab1e000ULL, kDead = 0xdeadca11ab1edeadULL;
 
 struct Cover {
-    uint64_t bodyDoneBeforeStartReturned = 0;
+    uint64_t bodyDoneBeforeStartReturned = 0, creationFailuresInjected = 0, detached = 0;
     uint64_t starts = 0, lateStarts = 0, polledFinishes = 0, runnables = 0, canaryChecks = 0, argChecks = 0, copiesMade = 0, nontrivialCases = 0;
     std::map<std::string, uint64_t> kinds;
     std::vector<uint64_t> fps;
@@ -183,6 +184,11 @@ void runCase(uint64_t c, rt::Rng rng) {
     dl.threadStartMaxUs = startDelay;
     spy::configure(dl, rt::mix(rt::st().seed, c));
 #endif
+    // fault injection (3% of the cases): the thread cannot be created. start() must then report failure by
+    // throwing (std::thread does), not return as if a thread had run.
+    bool failCreate = HAVE_SPY && rng.chance(30);
+    // rarely used path (4%): the owner detaches through std_thread() and still calls join()
+    bool detach = !failCreate && !viaCtor && rng.chance(40);
     int starterTid = (int) syscall(SYS_gettid);
     Thread local;
     Thread *t = nullptr;
@@ -191,6 +197,12 @@ void runCase(uint64_t c, rt::Rng rng) {
     Thread *&tr = t;
     // the Thread object must be known to the body before it can run: for start() it is `local`
     if (!viaCtor) sh.thread = &local;
+    TestRunnable *rawRunnable = nullptr;
+    bool threw = false;
+#if HAVE_SPY
+    if (failCreate) spy::failNextCreate();
+#endif
+    try {
     switch (kind) {
         case 0:
             if (nargs == 0) startIt(local, &fn0, viaCtor, tr);
@@ -223,11 +235,29 @@ void runCase(uint64_t c, rt::Rng rng) {
             break;
         }
         default:
-            local.start(new TestRunnable(&sh));
+            rawRunnable = new TestRunnable(&sh);
+            local.start(rawRunnable);
             t = &local;
             ++C.runnables;
             break;
     }
+    } catch (const std::system_error &) { threw = true; }
+    if (failCreate) {
+        ++C.creationFailuresInjected;
+        if (!threw) {
+            // no thread exists: nothing can ever run the callable
+            usleep(2000);
+            fail("started-without-thread", kn[kind], std::string("the thread could not be created, yet start() returned normally (callable invoked ") + std::to_string(sh.invocations.load()) + " times, isFinished() = " + (t && t->isFinished() ? "true" : "false") + ")");
+        } else if (sh.invocations.load() != 0) fail("invocation-count", kn[kind], "callable invoked although thread creation failed");
+        if (rawRunnable && sh.runnableDtors.load() == 0) delete rawRunnable;   // ownership after a failed start is unspecified: do not leak it ourselves
+        if (viaCtor && t) delete t;
+#if HAVE_SPY
+        spy::disableDelays();
+        spy::recycle();
+#endif
+        return;
+    }
+    if (threw) { fail("start-threw", kn[kind], "start() threw std::system_error although thread creation was not made to fail"); return; }
     uint64_t startReturned = stampNow();
     sh.runExitBeforeStartReturned = sh.doneStamp.load() != 0 && sh.doneStamp.load() < startReturned;
     // the starter keeps using its stack: everything start() left behind is overwritten
@@ -248,8 +278,18 @@ void runCase(uint64_t c, rt::Rng rng) {
             else if (rng.chance(300)) sched_yield();
         }
     }
+    if (detach) {
+        // after detaching through the accessor, join() must not pretend that the callable is done
+        ++C.detached;
+        t->std_thread().detach();
+        bool joinThrew = false;
+        try { t->join(); } catch (const std::system_error &) { joinThrew = true; }
+        if (!joinThrew && !sh.done.load()) fail("join-before-return", "join-after-detach", "join() on a detached Thread returned normally while the callable was still running");
+        while (!t->isFinished()) usleep(50);   // the detached body still writes into `local` and `sh`
+    } else {
     if (!t->isJoinable()) fail("not-joinable", "join", "a started Thread is not joinable");
     t->join();
+    }
     if (!sh.done.load()) fail("join-before-return", "join", "join() returned before the callable had returned");
     if (!t->isFinished() || t->isRunning()) fail("not-finished-after-join", "isFinished", "isFinished() is false / isRunning() is true after join() returned: completion is never reported");
     int inv = sh.invocations.load();
@@ -300,7 +340,7 @@ int main(int argc, char **argv) {
     spy::stopMonitor();
 #endif
     rt::dumpFingerprints(C.fps);
-    rt::finish(rt::Json().kv("engine", "h_thread").kv("starts", C.starts).kv("lateStarts", C.lateStarts).kv("bodyDoneBeforeStartReturned", C.bodyDoneBeforeStartReturned).kv("polledFinishes", C.polledFinishes)
+    rt::finish(rt::Json().kv("engine", "h_thread").kv("starts", C.starts).kv("lateStarts", C.lateStarts).kv("bodyDoneBeforeStartReturned", C.bodyDoneBeforeStartReturned).kv("threadCreationFailuresInjected", C.creationFailuresInjected).kv("detachedThenJoined", C.detached).kv("polledFinishes", C.polledFinishes)
                    .kv("runnables", C.runnables).kv("canaryChecks", C.canaryChecks).kv("argumentIdentityChecks", C.argChecks)
                    .kv("callableCopiesObserved", C.copiesMade).kv("nontrivialCases", C.nontrivialCases)
                    .raw("kinds", rt::jsonCounts(C.kinds)).raw("samples", rt::jsonArray(C.samples, false)));
